@@ -532,8 +532,14 @@ Section Update.
                          if Bool.eqb is_compr want then Ok (w1, l4, fixed', renamed) else
                          let new_mpath := if want then mpath ++ [46] ++ format
                                           else firstn (length mpath - (length (match compr with Some c => c | None => [] end) + 1)) mpath in
-                         (* never rename onto another loaded Manifest *)
+                         (* never rename onto another loaded Manifest, nor onto an existing file that is not one of the loaded Manifests
+                            (os.path.realpath equality = same inode: the model has no hard links) *)
                          if match get_m l4 new_mpath with Some _ => true | None => false end
+                            || (p_lexists w1 (pjoin rootdir new_mpath)
+                                && negb (existsb (fun kv => match resolve w1 (pjoin rootdir new_mpath), resolve w1 (pjoin rootdir (fst kv)) with
+                                                            | Ok i, Ok j => i =? j
+                                                            | _, _ => false
+                                                            end) (l_loaded l4)))
                          then Ok (w1, l4, fixed', renamed) else
                          match get_m l4 mpath with
                          | None => Err (XInternal IKey)
